@@ -120,6 +120,35 @@ theorem Rec.eq_none {eq : α → α → Bool} (r1 r2 : Rec α) (hq : Rec.equival
   unfold Rec.eq
   simp [hq]
 
+/-! ## heterogeneous products and sums -/
+
+theorem Pair.eq_iff {β : Type} {eqA : α → α → Bool} {eqB : β → β → Bool} (hA : LawfulEq eqA) (hB : LawfulEq eqB) :
+    LawfulEq (Pair.eq eqA eqB) := by
+  intro a b
+  cases a; cases b
+  simp [Pair.eq, hA _ _, hB _ _]
+
+theorem SumV.eq_iff {β : Type} {eqA : α → α → Bool} {eqB : β → β → Bool} (hA : LawfulEq eqA) (hB : LawfulEq eqB) :
+    LawfulEq (SumV.eq eqA eqB) := by
+  intro a b
+  cases a <;> cases b <;> simp [SumV.eq, hA _ _, hB _ _]
+
+theorem SumV.lt_strictTotal {β : Type} {ltA : α → α → Bool} {ltB : β → β → Bool} (hA : StrictTotal ltA)
+    (hB : StrictTotal ltB) : StrictTotal (SumV.lt ltA ltB) where
+  irrefl a := by cases a <;> simp [SumV.lt, hA.irrefl, hB.irrefl]
+  trans a b c := by
+    cases a <;> cases b <;> cases c <;> simp [SumV.lt]
+    · exact hA.trans _ _ _
+    · exact hB.trans _ _ _
+  total a b := by
+    cases a <;> cases b <;> simp [SumV.lt]
+    · exact hA.total _ _
+    · exact hB.total _ _
+
+theorem SumV.compare_eq {β : Type} (eqA : α → α → Bool) (eqB : β → β → Bool) (a b : Sum α β) :
+    SumV.compare eqA eqB a b = SumV.eq eqA eqB a b := by
+  cases a <;> cases b <;> rfl
+
 /-! ## box, sphere -/
 
 theorem Box.ext' {n : Nat} (a b : Box α n) (h1 : a.min = b.min) (h2 : a.max = b.max) : a = b := by
